@@ -2,9 +2,12 @@
 
 Monitors: (1) selective reference evaluator (vf.ref.transclusion.Ref with a selection) vs Wtp.expand,
 (2) confluence: expand(expand(p, selection)) == expand(p) (both sides real code), (3) recording
-template_fn / post_template_fn hooks vs the reference call list."""
+template_fn / post_template_fn hooks vs the reference call list.  Pages also hold {{#invoke:c13echo|...}} calls
+(a Lua module that reads all / the first / none of its arguments) with expand_invoke both ways, parser functions
+written under another spelling of their name, and template_fn results that start with a list marker."""
 from __future__ import annotations
 
+import os
 import random
 
 from vf.core.obs import Obs, cpu_guard, CpuBudget, exc_sig
@@ -15,38 +18,120 @@ from vf.props import c04
 
 LEVEL = "exploration"
 RULE = ("configurations = (acyclic library of 6 templates, page from the expansion grammar, templates_to_expand subset, "
-        "templates_to_not_expand subset, need_pre_expand flag subset, expand_parserfns, expand_invoke(with parserfns), hook policy "
-        "none/record/marker-per-call/post-marker, lang_code en|fr); all 64 subsets of the library are used as selections. "
+        "templates_to_not_expand subset, need_pre_expand flag subset, expand_parserfns, expand_invoke, hook policy "
+        "none/record/marker-per-call (some markers start with a list marker)/post-marker, lang_code en|fr); all 64 subsets of "
+        "the library are used as selections; about one page in seven also holds #invoke calls of an echo module (plain, inside "
+        "a call argument, inside a parser function) or parser functions written as #IF/#IfEq/#SWITCH. "
         "non-trivial = distinct configuration in which the reference both expanded >=1 call and left >=1 call unexpanded, or "
         "the identity clause applied")
 ASSUMPTIONS = ["reference rules from the expand()/parse() docstrings and README (DESIGN C13)",
                "tagged classes with their own signature: pre_expand=False with a non-None templates_to_expand; parser function "
                "whose first argument calls an unselected template; selected call inside a disabled parser function; disabled "
-               "parser function whose first argument starts with a blank"]
+               "parser function whose first argument starts with a blank",
+               "more tagged classes: a call inside the arguments of an evaluated #invoke while hooks are set (the statement's "
+               "'once per expanded call' is read as covering calls written on the page that the module makes the expander "
+               "expand; calls a module builds itself through frame:expandTemplate/preprocess are not in the workload); a "
+               "disabled parser function written under another spelling of its name; a template_fn result that starts with a "
+               "list marker ('used verbatim'); post_template_fn replacing an empty expansion ('sees the default expansion and "
+               "may replace it'; a post_template_fn call that is merely missing for an empty expansion has its own signature)",
+               "the echo module reads its arguments through frame.args (lazy expansion by the real sandbox code); Lua "
+               "stand-ins of vf.lua.shim"]
 WALL = {"quick": 900, "thorough": 5400}
 NAMES = ["ta", "tb", "tc", "td", "te", "tf"]
+# Tagged classes whose mechanism has been repaired in the repository: the tag is ignored and such cases are asserted
+# in the main class again with their precise signatures (add the class name here together with the 'fixed:' entry).
+SETTLED_CLASSES = {"selected-call-inside-disabled-parserfn", "disabled-parserfn-first-arg-edge-blank", "disabled-parserfn-name-spelling",
+                   "hooked-call-inside-invoke-argument", "post_template_fn-replaces-empty-expansion"}      # repaired in /repo: asserted like any other case
+SETTLED_CLASSES |= set(filter(None, os.environ.get("VERIF_C13_SETTLED", "").split(",")))      # for trying a repair
 
 
 def floors(tier):
     return {"oracle.selective==reference": 2000, "oracle.confluence": 300, "oracle.hook-calls": 500, "oracle.identity": 100,
             "sets.selections": 64, "counters.rule.call-left-unexpanded": 200, "counters.rule.template-expanded": 200,
             "counters.rule.parserfn-left-unexpanded": 50, "anchors.core.Wtp.check_template_need_expand": 500,
+            "counters.rule.invoke-evaluated": 300, "counters.rule.invoke-left-unexpanded": 100,
+            "counters.rule.invoke-argument-with-call-evaluated": 100, "counters.rule.invoke-argument-never-read": 30,
+            "counters.rule.parserfn-name-respelled": 200, "counters.hook.marker-starts-with-list-marker": 20,
+            "counters.switch.expand_invoke=False+expand_parserfns=True": 500, "anchors.luaexec.call_lua_sandbox": 300,
             "anchors.core.Wtp._unexpanded_template": 200, "counters.hook.marker-used": 50, "counters.hook.post-marker-used": 20}
 
 
 def shards(tier, seed):
-    per = {"quick": 6000, "thorough": 90000}[tier]
+    per = {"quick": 6500, "thorough": 96000}[tier]
     return [{"seed": seed * 1000 + i, "n": per, "lang": "fr" if i % 8 == 7 else "en"} for i in range(16)]
 
 
 _CTX = {}
+# frame.args[i] makes the sandbox expand the i-th argument (lazily, once); 'first' never reads the others,
+# 'none' reads nothing.  No '|', '=', braces or angle brackets in what the module adds itself.
+ECHO_MODULE = """
+local p = {}
+function p.echo(frame)
+  local out = {}
+  local i = 1
+  while frame.args[i] ~= nil do
+    out[#out + 1] = frame.args[i]
+    i = i + 1
+  end
+  return "E(" .. table.concat(out, ",") .. ")"
+end
+function p.first(frame)
+  return "F(" .. (frame.args[1] or "") .. ")"
+end
+function p.none(frame)
+  return "N()"
+end
+return p
+"""
+RESPELL = {"IF": ["#IF", "#If"], "EQ": ["#IFEQ", "#IfEq", "#ifEq"], "SW": ["#SWITCH", "#Switch"]}
+
+
+def respell(rng, a, p):
+    """Page AST with some parser functions written under another spelling of their name."""
+    k = a[0]
+    if k == "S":
+        return ("S", [respell(rng, x, p) for x in a[1]])
+    if k == "C":
+        args = [("pos", respell(rng, x[1], p)) if x[0] == "pos" else x[:3] + (respell(rng, x[3], p),) + x[4:] for x in a[3]]
+        return ("C", a[1], a[2], args)
+    if k in ("IF", "EQ"):
+        b = (k,) + tuple(respell(rng, x, p) for x in a[1:])
+    elif k == "SW":
+        b = ("SW", respell(rng, a[1], p), [(c, respell(rng, v, p)) for c, v in a[2]])
+    else:
+        return a
+    return ("RN", rng.choice(RESPELL[k]), b) if rng.random() < p else b
+
+
+def gen_invokes(rng, cfg, tags):
+    """#invoke calls of the echo module: plain, inside an argument of a library call, inside a parser function."""
+    out = []
+    for _ in range(rng.randint(1, 2)):
+        fn = rng.choice(["echo", "echo", "echo", "first", "first", "none"])
+        args = [G.seq(rng, rng.randint(0, 2), NAMES, False, cfg, tags) for _ in range(rng.randint(0, 3))]
+        if args and rng.random() < 0.7:
+            # at least one argument that is just a call (the shape a template body passes on)
+            n = rng.choice(NAMES)
+            j = rng.randrange(len(args))
+            args[j] = ("S", [("C", n, n, [("pos", ("S", [("T", rng.choice(["x", "y 1", ""]))]))] if rng.random() < 0.6 else [])])
+        inv = ("INV", fn, args)
+        r = rng.random()
+        if r < 0.2:
+            n = rng.choice(NAMES)
+            inv = ("C", n, n, [("pos", ("S", [inv]))])
+        elif r < 0.4:
+            inv = ("IF", ("S", [("T", "1")]), ("S", [inv]), ("S", [("T", "")]))
+        out.append(inv)
+    return out
 
 
 def ctx_for(lang):
     if lang not in _CTX:
         from vf.core.wtp import fresh
-        cm = fresh(lang_code=lang)
+        cm = fresh(lang_code=lang, lua=True)
         _CTX[lang] = (cm, cm.__enter__())
+        mns = _CTX[lang][1].NAMESPACE_DATA["Module"]
+        _CTX[lang][1].add_page(mns["name"] + ":c13echo", mns["id"], ECHO_MODULE, model="Scribunto")
         import atexit
         atexit.register(lambda: cm.__exit__(None, None, None))
     return _CTX[lang][1]
@@ -83,6 +168,13 @@ def make_cfg(rng, i, base=None):
                 args = [("pos", ("S", [("T", rng.choice(["x", "y 1", ""]))]))] if rng.random() < 0.6 else []
                 extra.append(("CN", "t", inner, "t" + letter, args))
             page = ("S", page[1] + extra)
+        r = rng.random()
+        if r < 0.10:
+            items = page[1] + gen_invokes(rng, cfg, tags)
+            rng.shuffle(items)
+            page = ("S", items)
+        elif r < 0.15:
+            page = respell(rng, page, 0.6)
     else:
         lib, page = base["lib"], base["page"]
     sel_bits = i % 64
@@ -92,6 +184,7 @@ def make_cfg(rng, i, base=None):
     if base is not None:
         flags = set(base["flags"])      # same stored library: no add_page between the calls of a group
     pf = rng.random() < 0.7
+    inv = rng.random() < 0.6
     hook = rng.choice(["none", "none", "record", "marker", "post"])
     mode = "selective"
     r = rng.random()
@@ -100,7 +193,7 @@ def make_cfg(rng, i, base=None):
     elif r < 0.16:
         mode = "identity"
     return {"lib": lib, "page": page, "sel": sorted(sel), "notsel": None if notsel is None else sorted(notsel),
-            "flags": sorted(flags), "pf": pf, "hook": hook, "mode": mode}
+            "flags": sorted(flags), "pf": pf, "inv": inv, "hook": hook, "mode": mode}
 
 
 def _digest(*xs):
@@ -115,7 +208,9 @@ def marker(c, name, args):
     d = _digest(name, sorted(map(repr, args.items())))
     if int(d[:2], 16) % 2:
         return None
-    return "«M" + d[:4] + "»"
+    # one marker in ten starts with a list marker: "its non-None result is used verbatim as the expansion"
+    lead = "*:#;"[int(d[4:6], 16) % 4] if c.get("list_markers", True) and int(d[2:4], 16) % 10 == 0 else ""
+    return lead + "«M" + d[:4] + "»"
 
 
 def post_marker(c, name, args, t):
@@ -161,11 +256,12 @@ def run_real(ctx, c, text=None, full=False):
                 _SEL.clear(); _SEL.update(c["sel"])
                 _NOT.clear(); _NOT.update(c["notsel"] or ())
                 kw = dict(pre_expand=True, templates_to_expand=_SEL,
-                          templates_to_not_expand=None if c["notsel"] is None else _NOT, expand_parserfns=c["pf"])
+                          templates_to_not_expand=None if c["notsel"] is None else _NOT, expand_parserfns=c["pf"],
+                          expand_invoke=c.get("inv", True))
             else:
                 kw = dict(pre_expand=True, templates_to_expand=set(c["sel"]),
                           templates_to_not_expand=None if c["notsel"] is None else set(c["notsel"]),
-                          expand_parserfns=c["pf"])
+                          expand_parserfns=c["pf"], expand_invoke=c.get("inv", True))
         if c["hook"] != "none":
             kw["template_fn"] = tf
             kw["post_template_fn"] = ptf
@@ -180,13 +276,62 @@ def run_real(ctx, c, text=None, full=False):
     return out, calls, posts
 
 
+class Ref13(Ref):
+    """The shared reference plus the two page-level shapes only this property generates."""
+    inv = True      # expand_invoke
+
+    def ev(self, a, frame, stack=(), full=None):
+        k = a[0]
+        if k not in ("INV", "RN"):
+            return super().ev(a, frame, stack, full)
+        if full is None:
+            full = self.selection is None
+        if k == "RN":
+            # a parser function is a parser function under every spelling of its name; left alone it is emitted
+            # "as a call with the same name"
+            self.hit("parserfn-name-respelled")
+            out = self.ev(a[2], frame, stack, full)
+            if not self.pf:
+                self.hit("CLASS:disabled-parserfn-name-spelling")
+                return "{{" + a[1] + out[out.index(":"):]
+            return out
+        fn, args = a[1], a[2]
+        if not self.pf or not self.inv:
+            # left alone like every other call that is not expanded: same name, arguments under the selection
+            self.hit("invoke-left-unexpanded")
+            vals = [self.ev(x, frame, stack, full) for x in args]
+            if vals != [G.render(x) for x in args]:
+                self.hit("CLASS:selected-call-inside-disabled-parserfn")
+            if any(v.endswith("\n") for v in vals):
+                self.hit("CLASS:pos-trailing-newline")      # a later evaluation drops it (make_frame)
+            out = "{{#invoke:c13echo|" + fn + "".join("|" + v for v in vals) + "}}"
+            if (frame is not None or full) and "=" in out:
+                self.hit("CLASS:disabled-parserfn-text-with-equals-inside-expanded-call")
+            return out
+        self.hit("invoke-evaluated")
+        read = args if fn == "echo" else args[:1] if fn == "first" else []
+        if len(read) < len(args):
+            self.hit("invoke-argument-never-read")
+        n0 = len(self.calls)
+        vals = []
+        for x in read:
+            if G.render(x).endswith("\n"):
+                self.hit("CLASS:pos-trailing-newline")      # make_frame drops it, as for template arguments
+            vals.append(self.ev(x, frame, stack, True))      # arguments of an evaluated call: fully expanded
+        if len(self.calls) != n0:
+            self.hit("invoke-argument-with-call-evaluated")
+            if self.hook is not None:
+                self.hit("CLASS:hooked-call-inside-invoke-argument")
+        return {"echo": "E(" + ",".join(vals) + ")", "first": "F(" + "".join(vals) + ")", "none": "N()"}[fn]
+
+
 def reference(c, lang):
     if c["mode"] == "identity":
-        sel, pf = set(), False
+        sel, pf, inv = set(), False, False
     elif c["mode"] == "no-pre-expand-with-selection":
-        sel, pf = set(c["sel"]), True          # README: "or just these if it is false"
+        sel, pf, inv = set(c["sel"]), True, True          # README: "or just these if it is false"
     else:
-        sel, pf = effective(c), c["pf"]
+        sel, pf, inv = effective(c), c["pf"], c.get("inv", True)
     calls, posts = [], []
 
     def hook(name, ht):
@@ -196,8 +341,11 @@ def reference(c, lang):
     def post(name, ht, t):
         posts.append((name, dict(ht), t))
         return post_marker(c, name, ht, t)
-    r = Ref(c["lib"], selection=sel, pf=pf, hook=hook if c["hook"] != "none" else None,
-            post=post if c["hook"] != "none" else None)
+    r = Ref13(c["lib"], selection=sel, pf=pf, hook=hook if c["hook"] != "none" else None,
+              post=post if c["hook"] != "none" else None)
+    r.inv = inv
+    r.hook_verbatim = True      # "its non-None result is used verbatim as the expansion"
+    r.post_on_empty = True      # "post_template_fn sees the default expansion and may replace it"
     r.template_ns_name = ctx_for(lang).NAMESPACE_DATA["Template"]["name"]
     if lang != "en":
         r.full_body = set(c["flags"]) if c["mode"] == "selective" else set()
@@ -222,7 +370,7 @@ def check(ctx, c, lang, obs=None):
         return None, None
     got, calls, posts = run_real(ctx, c)
     probs = []
-    classes = sorted(k[6:] for k in r.rules if k.startswith("CLASS:"))
+    classes = sorted(k[6:] for k in r.rules if k.startswith("CLASS:") and k[6:] not in SETTLED_CLASSES)
     if c["mode"] == "no-pre-expand-with-selection":
         classes.append("pre_expand=False+templates_to_expand")
     if len(classes) > 1:
@@ -262,10 +410,20 @@ def check(ctx, c, lang, obs=None):
                 kind = "count(%s)" % ("more" if len(calls) > len(rcalls) else "fewer")
             P("template_fn-calls-%s" % kind, "expected=%r got=%r" % (rcalls[:6], calls[:6]))
         if sorted(map(repr, posts)) != sorted(map(repr, rposts)):
-            P("post_template_fn-calls", "expected=%r got=%r" % (rposts[:4], posts[:4]))
+            from collections import Counter
+            want, have = Counter(map(repr, rposts)), Counter(map(repr, posts))
+            missing = [x for x in rposts if (want - have).get(repr(x))]
+            if not (have - want) and all(x[2] == "" for x in missing):
+                # "post_template_fn sees the default expansion": the only calls that are missing are those for an
+                # expansion that is empty
+                P("post_template_fn-not-called-for-empty-expansion", "missing=%r got=%r" % (missing[:4], posts[:4]))
+            else:
+                P("post_template_fn-calls", "expected=%r got=%r" % (rposts[:4], posts[:4]))
         if obs:
             if c["hook"] == "marker" and "«M" in got:
                 obs.count("hook.marker-used")
+            if c["hook"] == "marker" and any(x + "«M" in got for x in "*:#;"):
+                obs.count("hook.marker-starts-with-list-marker")
             if c["hook"] == "post" and "«P" in got:
                 obs.count("hook.post-marker-used")
     # confluence: what selective expansion leaves behind still means the same (hook-free, plain alphabet)
@@ -323,18 +481,20 @@ def minimise(ctx, c, lang, sig, budget=1500):
 def describe(c):
     return {"page": G.render(c["page"]), "library": {n: G.render(b) for n, b in c["lib"].items()},
             "templates_to_expand": c["sel"], "templates_to_not_expand": c["notsel"], "need_pre_expand": c["flags"],
-            "expand_parserfns": c["pf"], "hook": c["hook"], "mode": c["mode"]}
+            "expand_parserfns": c["pf"], "expand_invoke": c.get("inv", True), "hook": c["hook"], "mode": c["mode"]}
 
 
 def run_shard(spec):
     import wikitextprocessor.core as core
+    import wikitextprocessor.luaexec as luaexec
     obs = Obs()
     rng = random.Random(spec["seed"])
     lang = spec["lang"]
     ctx = ctx_for(lang)
     anchors.watch({"core.Wtp.check_template_need_expand": core.Wtp.check_template_need_expand,
                    "core.Wtp._unexpanded_template": core.Wtp._unexpanded_template,
-                   "core.expand_parserfn": (core.Wtp.expand, "expand_parserfn")})
+                   "core.expand_parserfn": (core.Wtp.expand, "expand_parserfn"),
+                   "luaexec.call_lua_sandbox": luaexec.call_lua_sandbox})
     mins = 0
     base = None
     for i in range(spec["n"]):
@@ -358,6 +518,8 @@ def run_shard(spec):
         obs.add("selections", ",".join(c["sel"]))
         obs.count("mode." + c["mode"])
         obs.count("hook-policy." + c["hook"])
+        if c["mode"] == "selective":
+            obs.count("switch.expand_invoke=%s+expand_parserfns=%s" % (c.get("inv", True), c["pf"]))
         obs.count("lang." + lang)
         nontriv = (r.rules.get("call-left-unexpanded", 0) > 0 and r.rules.get("template-expanded", 0) > 0) or c["mode"] == "identity"
         d = describe(c)
